@@ -358,6 +358,12 @@ func propMain(args []string, o RunOpts, tier string) int {
 	if ps.Harness != nil {
 		hres = runHarness(ps.Harness, tier, seed, o.RepoDir)
 		if hres.InfraError != "" {
+			// the stand-in did not run to completion (a build or test binary that fell over on a busy
+			// machine): once more before giving up -- an infrastructure hiccup is not a verdict
+			fmt.Fprintln(os.Stderr, "harness did not complete, retrying once:", firstLines(hres.InfraError, 3))
+			hres = runHarness(ps.Harness, tier, seed, o.RepoDir)
+		}
+		if hres.InfraError != "" {
 			fmt.Fprintln(os.Stderr, "INFRASTRUCTURE: harness:", hres.InfraError)
 			return 2
 		}
